@@ -41,7 +41,7 @@ func init() {
 var c19States = []string{"fresh", "greeted", "mail", "rcpt", "bdat"}
 
 func c19Run(ctx *core.Ctx) {
-	nFuzz, shortLen := 20000, 3
+	nFuzz, shortLen := 60000, 3
 	if ctx.Thorough() {
 		nFuzz, shortLen = 600000, 4
 	}
